@@ -25,6 +25,25 @@ Theorem code_opposite_helicity_exclusive : forall t s s' b, wf_ids t ->
                (a <> a' -> tuple_gtb a' a = negb b).
 Proof. exact gen_opposite_helicity_exclusive. Qed.
 
+(** list_decay_chain_ids returns the state itself followed by its successive parents up to the edge without parent
+    (each link is what the translated get_parent_id answers), for every topology and every fuel that suffices. *)
+Theorem code_decay_chain_links : forall fuel t s l,
+  gen_list_decay_chain_ids fuel t s = Ok l -> exists tail, l = s :: tail /\ chain_ok t l.
+Proof. exact gen_decay_chain_links. Qed.
+
+(** the result of the while loop does not depend on the fuel once it suffices (running out of fuel is never a value) *)
+Theorem code_decay_chain_fuel_irrelevant : forall t s l fuel fuel',
+  (fuel <= fuel')%nat -> gen_list_decay_chain_ids fuel t s = Ok l -> gen_list_decay_chain_ids fuel' t s = Ok l.
+Proof. exact gen_decay_chain_fuel_irrelevant. Qed.
+
+(** __get_boost_chain_ids (the frames a final state is boosted through, in order) is the decay chain reversed with the
+    one initial state removed; it is only defined when the topology has exactly one incoming edge. *)
+Theorem code_boost_chain_is_reversed_decay_chain : forall fuel t s l,
+  gen_get_boost_chain_ids fuel t s = Ok l ->
+  exists chain i0, gen_list_decay_chain_ids fuel t s = Ok chain /\
+                   topo_incoming_edge_ids t = [i0] /\ py_remove i0 (rev chain) = Ok l.
+Proof. exact gen_boost_chain_is_reversed_decay_chain. Qed.
+
 (** Instance theorem (re-checked on every run against the topologies qrules creates NOW, plus renumbered variants):
     on each of them the translated helpers agree, at every node, with the hand model Kin.v that the C07 theorems are
     about (attached final states, sibling, opposite-helicity flag, parent), and assert_isobar_topology accepts it. *)
@@ -39,6 +58,16 @@ Example code_current_topologies_nonvacuous :
                     | Err ENondet | Err EFuel => false | _ => true end) current_topologies = true.
 Proof. vm_compute. repeat split; reflexivity. Qed.
 
+Example code_decay_chain_example :
+  let t := {| rt_nodes := [0; 1]; rt_edges := [E (-1) None (Some 0); E 0 (Some 0) None; E 3 (Some 0) (Some 1);
+                                               E 1 (Some 1) None; E 2 (Some 1) None] |} in
+  gen_list_decay_chain_ids 8 t 1 = Ok [1; 3; -1] /\ gen_get_boost_chain_ids 8 t 1 = Ok [3; 1] /\
+  gen_get_boost_chain_ids 8 t 0 = Ok [0].
+Proof. vm_compute. repeat split; reflexivity. Qed.
+
 Print Assumptions code_sibling_involutive.
 Print Assumptions code_opposite_helicity_exclusive.
+Print Assumptions code_decay_chain_links.
+Print Assumptions code_decay_chain_fuel_irrelevant.
+Print Assumptions code_boost_chain_is_reversed_decay_chain.
 Print Assumptions code_helpers_agree_with_Kin_on_current_topologies.
